@@ -346,8 +346,14 @@ func earlierExits(info *types.Info, list []ast.Stmt, child ast.Node) []Guard {
 		if s == child {
 			break
 		}
-		if ifs, ok := s.(*ast.IfStmt); ok && ifs.Else == nil && terminates(info, ifs.Body.List) {
+		// `if a { leave } else if b { leave } ...`: the leading arms that leave contribute !a, !b, ...
+		// (a later arm's condition is only known to be false if all earlier arms left as well)
+		for ifs, ok := s.(*ast.IfStmt); ok && terminates(info, ifs.Body.List); {
 			gs = append(gs, Guard{ifs.Cond, false})
+			if ifs.Else == nil {
+				break
+			}
+			ifs, ok = ifs.Else.(*ast.IfStmt)
 		}
 	}
 	return gs
@@ -863,4 +869,34 @@ func guardErrNotNil(info *types.Info, g Guard, name string) bool {
 	}
 	tv, ok := info.Types[x]
 	return ok && isErrorType(tv.Type)
+}
+
+// mentionsIdent reports whether expression e contains an identifier with the given name.
+func mentionsIdent(e ast.Expr, name string) bool {
+	found := false
+	ast.Inspect(e, func(n ast.Node) bool {
+		if id, ok := n.(*ast.Ident); ok && id.Name == name {
+			found = true
+		}
+		return !found
+	})
+	return found
+}
+
+// paramNameAt returns the name of the i-th parameter of a function declaration ("" if unnamed).
+func paramNameAt(fd *ast.FuncDecl, i int) string {
+	pi := 0
+	for _, f := range fd.Type.Params.List {
+		if len(f.Names) == 0 {
+			pi++
+			continue
+		}
+		for _, n := range f.Names {
+			if pi == i {
+				return n.Name
+			}
+			pi++
+		}
+	}
+	return ""
 }
